@@ -25,12 +25,21 @@ Model/Ctc.vos Model/Ctc.vok Model/Ctc.required_vos: Model/Ctc.v Base/Result.vos 
 Model/Queries.vo Model/Queries.glob Model/Queries.v.beautified Model/Queries.required_vo: Model/Queries.v Base/Result.vo Base/Str.vo Base/AstOp.vo Model/Ast.vo Model/FM.vo Model/Ctc.vo
 Model/Queries.vio: Model/Queries.v Base/Result.vio Base/Str.vio Base/AstOp.vio Model/Ast.vio Model/FM.vio Model/Ctc.vio
 Model/Queries.vos Model/Queries.vok Model/Queries.required_vos: Model/Queries.v Base/Result.vos Base/Str.vos Base/AstOp.vos Model/Ast.vos Model/FM.vos Model/Ctc.vos
+Base/PyFloat.vo Base/PyFloat.glob Base/PyFloat.v.beautified Base/PyFloat.required_vo: Base/PyFloat.v 
+Base/PyFloat.vio: Base/PyFloat.v 
+Base/PyFloat.vos Base/PyFloat.vok Base/PyFloat.required_vos: Base/PyFloat.v 
+Model/Sem.vo Model/Sem.glob Model/Sem.v.beautified Model/Sem.required_vo: Model/Sem.v Base/Result.vo Base/Str.vo Base/AstOp.vo Model/Ast.vo Model/FM.vo
+Model/Sem.vio: Model/Sem.v Base/Result.vio Base/Str.vio Base/AstOp.vio Model/Ast.vio Model/FM.vio
+Model/Sem.vos Model/Sem.vok Model/Sem.required_vos: Model/Sem.v Base/Result.vos Base/Str.vos Base/AstOp.vos Model/Ast.vos Model/FM.vos
+Model/Ops.vo Model/Ops.glob Model/Ops.v.beautified Model/Ops.required_vo: Model/Ops.v Base/Result.vo Base/Str.vo Base/PyFloat.vo Base/AstOp.vo Model/Ast.vo Model/FM.vo Model/Ctc.vo Model/Queries.vo Model/Sem.vo
+Model/Ops.vio: Model/Ops.v Base/Result.vio Base/Str.vio Base/PyFloat.vio Base/AstOp.vio Model/Ast.vio Model/FM.vio Model/Ctc.vio Model/Queries.vio Model/Sem.vio
+Model/Ops.vos Model/Ops.vok Model/Ops.required_vos: Model/Ops.v Base/Result.vos Base/Str.vos Base/PyFloat.vos Base/AstOp.vos Model/Ast.vos Model/FM.vos Model/Ctc.vos Model/Queries.vos Model/Sem.vos
 Extract/Codec.vo Extract/Codec.glob Extract/Codec.v.beautified Extract/Codec.required_vo: Extract/Codec.v Base/Result.vo Base/Str.vo Base/Sexp.vo Base/AstOp.vo Model/Ast.vo Model/FM.vo
 Extract/Codec.vio: Extract/Codec.v Base/Result.vio Base/Str.vio Base/Sexp.vio Base/AstOp.vio Model/Ast.vio Model/FM.vio
 Extract/Codec.vos Extract/Codec.vok Extract/Codec.required_vos: Extract/Codec.v Base/Result.vos Base/Str.vos Base/Sexp.vos Base/AstOp.vos Model/Ast.vos Model/FM.vos
-Extract/Driver.vo Extract/Driver.glob Extract/Driver.v.beautified Extract/Driver.required_vo: Extract/Driver.v Base/Result.vo Base/Str.vo Base/Sexp.vo Base/AstOp.vo Model/Ast.vo Model/FM.vo Model/Ctc.vo Model/Queries.vo Extract/Codec.vo
-Extract/Driver.vio: Extract/Driver.v Base/Result.vio Base/Str.vio Base/Sexp.vio Base/AstOp.vio Model/Ast.vio Model/FM.vio Model/Ctc.vio Model/Queries.vio Extract/Codec.vio
-Extract/Driver.vos Extract/Driver.vok Extract/Driver.required_vos: Extract/Driver.v Base/Result.vos Base/Str.vos Base/Sexp.vos Base/AstOp.vos Model/Ast.vos Model/FM.vos Model/Ctc.vos Model/Queries.vos Extract/Codec.vos
+Extract/Driver.vo Extract/Driver.glob Extract/Driver.v.beautified Extract/Driver.required_vo: Extract/Driver.v Base/Result.vo Base/Str.vo Base/Sexp.vo Base/AstOp.vo Model/Ast.vo Model/FM.vo Model/Ctc.vo Model/Queries.vo Model/Sem.vo Model/Ops.vo Extract/Codec.vo
+Extract/Driver.vio: Extract/Driver.v Base/Result.vio Base/Str.vio Base/Sexp.vio Base/AstOp.vio Model/Ast.vio Model/FM.vio Model/Ctc.vio Model/Queries.vio Model/Sem.vio Model/Ops.vio Extract/Codec.vio
+Extract/Driver.vos Extract/Driver.vok Extract/Driver.required_vos: Extract/Driver.v Base/Result.vos Base/Str.vos Base/Sexp.vos Base/AstOp.vos Model/Ast.vos Model/FM.vos Model/Ctc.vos Model/Queries.vos Model/Sem.vos Model/Ops.vos Extract/Codec.vos
 Extract/Extract.vo Extract/Extract.glob Extract/Extract.v.beautified Extract/Extract.required_vo: Extract/Extract.v Base/Sexp.vo Extract/Driver.vo
 Extract/Extract.vio: Extract/Extract.v Base/Sexp.vio Extract/Driver.vio
 Extract/Extract.vos Extract/Extract.vok Extract/Extract.required_vos: Extract/Extract.v Base/Sexp.vos Extract/Driver.vos
